@@ -993,7 +993,7 @@ impl<R: Read> RdbReader<R> {
                             }
                             
                             // Read field-value pairs
-                            let mut fields = Vec::with_capacity(field_count.min(remaining_count));
+                            let mut fields = Vec::new();
                             for _ in 0..field_count {
                                 let field = self.read_string()?;
                                 let value = self.read_string()?;
